@@ -10,8 +10,9 @@ from . import _auth
 
 ID = "C11"
 P = "Webauthn.Props.C11."
-THEOREMS = [P + n for n in ("total", "too_short", "header", "leftover_plain", "parseCbor_err", "flagsByteOf_total")] + \
-           ["Webauthn.Props.C10.layout"]
+THEOREMS = [P + n for n in ("total", "too_short", "header", "leftover_plain", "parseCbor_err", "flagsByteOf_total",
+                            "exact", "suffix_rejected")] + \
+           ["Webauthn.Props.C10.layout", "Webauthn.Cbor.dec_enc", "Webauthn.parseCbor_enc", "Webauthn.parseAuthData_encode_sfx"]
 LEAN_TARGETS = ["Props.C11"]
 SPEC_FILES = ["Spec/Core.lean", "Model/Cbor.lean"]
 ASSUMPTIONS = ["CBOR outside the modelled fragment (tags, floats, indefinite lengths, other simple values, non-scalar map keys) is "
@@ -119,6 +120,11 @@ def work(tasks, idx):
                 res.violations.append({"why": f"parser raised {code.get('nonlib') or code.get('lib')}: {code.get('msg')}", "b": b.hex(),
                                        "match": {"op": "parse_auth_data", "rule": "library-exception"}})
             if label == "canonical":
+                # the layout of the `exact` theorem (encodeAuthData) is the simulator's layout
+                tie.check({"op": "encode_auth_data", "rp": rp.hex(), "flags": flags, "counter": counter,
+                           "aaguid": aaguid.hex() if cose else None, "cred_id": cid.hex() if cose else None,
+                           "key": cose.hex() if cose else None, "ext": ext.hex() if ext else None},
+                          {"k": "accept", "record": ad.hex()}, label=["layout", flags])
                 exp = {"rp_id_hash": rp.hex(), "flags": {"up": bool(flags & 1), "uv": bool(flags & 4), "be": bool(flags & 8),
                                                          "bs": bool(flags & 16), "at": bool(flags & 64), "ed": bool(flags & 128)},
                        "sign_count": str(counter),
